@@ -8,7 +8,7 @@ import GoderiveModel.S.ErrChain
 namespace Goderive.Spec
 
 open Goderive.Plumb (Out)
-open Goderive.ErrChain (Stage Log Result TResult)
+open Goderive.ErrChain (Stage Log Result TResult Thunk FnResult)
 
 /-! ### C15: calling the wrapper calls `f` exactly once, arguments in their proper positions -/
 
@@ -87,6 +87,15 @@ def bindESpec {V E} (zeros : List V) (g f : Stage V E) : Result V E :=
   | some e => { res := zeros, err := some e, log := [(0, [])] }
   | none => { res := (f.run (g.run []).1).1, err := (f.run (g.run []).1).2,
               log := [(0, []), (1, (g.run []).1)] }
+
+/-- Fmap (error form) returning a function: by the time it returns, `g` and then `f` have been called
+once each (only `g` if it fails: nil function and that error); the returned function yields exactly
+what that one call of `f` returned and calls nothing, however often it is invoked -/
+def fmapEFnSpec {V E} (g f : Stage V E) : FnResult V E :=
+  match (g.run []).2 with
+  | some e => { fn := none, err := some e, log := [(0, [])] }
+  | none => { fn := some { vals := (f.run (g.run []).1).1, err := (f.run (g.run []).1).2, perCall := [] },
+              err := none, log := [(0, []), (1, (g.run []).1)] }
 
 /-- Traverse: `k` = length of the longest prefix on which `f` succeeds; elements `0..k` are visited
 once each in order; a failure at `k` gives the nil slice and that error, otherwise `list.map f` -/
